@@ -103,6 +103,29 @@ def run_property(ctx, pid, props_file, make_work, theorems_note, rule, trusted_e
         distinct.add((r["q"].sql, json.dumps(r["cfg"], sort_keys=True)))
         if r["outcome"] in ("agree", "both_error", "unsupported"):
             continue
+        if r["outcome"] in ("engine_hang", "engine_abort") and r.get("run"):
+            # a watchdog timeout can be machine load: the statement list is run once more on its own with a
+            # four times longer watchdog; only a repeated hang/abort is reported
+            case = dict(r["run"])
+            case.update({"id": "retry", "stmts": r["stmts"], "timeout_s": 4 * timeout_s})
+            rr = common.run_harness(gverif, "sql", [case], timeout=4 * timeout_s + 120)[0]
+            res = rr.get("results")
+            if res and len(res) == len(r["stmts"]):
+                last = res[-1]
+                if last.get("ok"):
+                    got = "(" + " ".join("(" + " ".join(sqlrun.cell_sx(x) for x in row) + ")" for row in last["rows"]) + ")"
+                    v = common.run_model(gmodel, "x", ["(check %s %s %s)" % (r["dbsx"], sqlast.expand_text(r["q"].sx), got)])[0]
+                    if v == "OK":
+                        outcomes["agree_after_retry_in_isolation"] += 1
+                        continue
+                    r["engine"], r["outcome"], r["verdict"] = last, "mismatch", v
+                elif "err" in last:
+                    v = common.run_model(gmodel, "x", ["(eval %s %s)" % (r["dbsx"], sqlast.expand_text(r["q"].sx))])[0]
+                    if v.startswith("ERR"):
+                        outcomes["agree_after_retry_in_isolation"] += 1
+                        continue
+                    r["engine"], r["outcome"] = last, "engine_error"
+            r["retried_in_isolation"] = True
         k = classify_known(r, gmodel, known_ids)
         if k:
             known_hits[k] += 1
